@@ -356,6 +356,7 @@ var oddFeatures = []struct {
 	{templang.OddExprComment, "StringExpression.BlockCommentInsideBraces"},
 	{templang.OddCallBlockOneLine, "TemplElementExpression.BlockWrittenOnOneLine"},
 	{templang.OddCommentBeforeTempl, "TemplateFile.IndentedCommentBeforeTempl"},
+	{templang.OddHeaderSpansLines, "ControlFlowHeader.ExpressionSpansLines"},
 }
 
 func srcOdd(prog []templang.Node, odd int) string {
